@@ -56,7 +56,7 @@ def _chunk(args):
     }
     for i in range(start, start + count):
         s = run_seed(base_seed, fam, focus, i)
-        res = execute(fam, focus, params, seed=s)
+        res = execute(fam, focus, dict(params, run_index=i), seed=s)
         agg["n"] += 1
         if res.get("nontrivial"):
             agg["keys"].append(res.get("key"))
